@@ -239,3 +239,6 @@ package rfc8628
 //@   invariant loop#1 [C08.revoked-grant-stays-revoked] old(deadrid(rid0)) ==> deadrid(rid0)
 //@   invariant loop#1 [C04.used-refresh-token-stays-used] old(ref_ever[sig0] && !(ref_exists[sig0] && ref_active[sig0])) ==> ref_ever[sig0] && !(ref_exists[sig0] && ref_active[sig0])
 //@   invariant loop#1 [C16.used-device-code-stays-used] old(dev_ever[sig0] && !dev_live[sig0]) ==> dev_ever[sig0] && !dev_live[sig0]
+
+//@ func (*DeviceCodeTokenEndpointHandler).CanSkipClientAuth
+//@   ensures [C10.device-grant-never-skips-auth] !result
